@@ -23,10 +23,12 @@ import (
 	_ "golang.org/x/crypto/sha3"
 	"pgregory.net/rapid"
 
+	"verifharness/fc"
 	"verifharness/h"
 )
 
 func TestMain(m *testing.M) {
+	h.FirstCallsChild(fc.Merkle()) // never returns in a first-call child process
 	lateRegistration()
 	h.Main(m)
 }
@@ -712,3 +714,6 @@ func TestRandomTrees(t *testing.T) {
 func FuzzGenTrees(f *testing.F) {
 	h.FuzzSub(f, h.Sub[treeCase]{Prop: "C15", Name: "random-trees", Gen: genTree, Check: checkTree})
 }
+
+// which public entry point is called first in a process (and by how many goroutines at once)
+func TestFirstCalls(t *testing.T) { h.FirstCallsSub(t, "C15", fc.Merkle(), 6) }
